@@ -48,6 +48,9 @@ theorem leqAll_take : ∀ (m : Nat) {a b : Vec}, leqAll a b = true →
 /-- Objectives have `n` columns and are non-negative. -/
 def GoodObj (n : Nat) (c : Cand K) : Prop := c.obj.length = n ∧ ∀ x ∈ c.obj, 0 ≤ x
 
+instance (n : Nat) (c : Cand K) : Decidable (GoodObj n c) := by
+  unfold GoodObj; exact inferInstance
+
 theorem addv_nonneg : ∀ {a b : Vec}, (∀ x ∈ a, 0 ≤ x) → (∀ x ∈ b, 0 ≤ x) → ∀ z ∈ addv a b, 0 ≤ z
   | [], _, _, _ => by simp [addv]
   | _ :: _, [], _, _ => by simp [addv]
